@@ -39,7 +39,7 @@ theorem psV3Publish_all (hP : Lax P) (c : C) (p : Pkt) (hs : ∀ r, P (.send p r
 
 theorem psV5PublishTail_all (hP : Lax P) (c : C) (p : Pkt) (rel) (hs : P (.send p rel)) (h : EvAll P c.ev) :
     EvAll P (psV5PublishTail c p rel).ev := by
-  by_cases h1 : p.qos > 0 ∧ c.s.sendMax.isSome = true <;> by_cases h2 : c.s.sendCount ≥ 65535 <;>
+  by_cases h1 : p.qos > 0 ∧ c.s.sendMax.isSome = true <;> by_cases h2 : c.s.sendCount ≥ 4294967295 <;>
     simp [psV5PublishTail, h1, h2, h, hs, sendPostProcess_all hP]
 
 theorem autoAlias_kind (c : C) (p : Pkt) :
